@@ -319,7 +319,8 @@ class MinGenSet():
         start_time = time.perf_counter()
 
         # Solve for increasing numbers of elements in the generating set
-        for k in range(self.lowerbound, max(self.lowerbound+1, len(self.initial_numbers))):
+        # A generating set may need as many elements as there are numbers, plus one to reach `total`
+        for k in range(self.lowerbound, max(self.lowerbound+1, len(self.initial_numbers) + 2)):
             self._create_solver(k=k)
             self.solver.optimize()
 
